@@ -1,5 +1,5 @@
 (* C07 - a refused transfer moves no data, leaks nothing and leaves the session usable. *)
-From LibFtp Require Import Bytes Decimal Reply Endpoint DataConn Client Client_Proofs.
+From LibFtp Require Import Bytes Decimal Reply Endpoint DataConn Client Client_Proofs Ascii DataConn_Proofs Login_Proofs Transfer_Proofs.
 Local Open Scope N_scope.
 
 (* Refusal at the set-up command in passive mode (EPSV or PASV answered by any negative reply other than 421), for
@@ -31,6 +31,27 @@ Print Assumptions C07_no_leak.
 (* PARTIAL: the full statement - the same conclusion for a refusal at the transfer command itself and for the two
    active modes - is decided by the correspondence (bin/props/proto.py, oracle_transfers) on generated histories;
    the Coq theorem above covers the set-up step of the passive modes. *)
+
+(* refusal at the transfer command itself (RETR / STOR / STOU / APPE / LIST / NLST answered 4xx / 5xx), passive modes, for
+   every operation (any continuation k_ok), sink, source and callback: the two replies received are returned, no sink /
+   source / callback event happens, the data connection that had been opened is closed, and the session is in step *)
+Theorem C07_refused_at_transfer_command : forall w verb path io k_ok r1 r2 rest x1 x2 ip port,
+  insync w (r1 :: r2 :: rest) -> w_data w = None ->
+  c_mode (w_cfg w) = Passive -> has_crlf path = false ->
+  simple_reaction r1 x1 -> is_negative x1 = false -> passive_target (w_cfg w) x1 ip port ->
+  dp_reachable (r_data r1) = true ->
+  simple_reaction r2 x2 -> is_negative x2 = true ->
+  exists w',
+    run (CheckArg path (Scope (create_data_connection verb (Some path) [] k_ok (fun acc => Ret (RvReplies acc))))) (set_io w io)
+      = (OReturn (RvReplies [x1; x2]), w') /\
+    insync w' rest /\ w_data w' = None /\ w_cfg w' = w_cfg w /\
+    io_events (skipn (length (w_trace w)) (w_trace w')) = [] /\
+    wire_events (skipn (length (w_trace w)) (w_trace w')) =
+      [WLine (setup_line (w_cfg w)); WReply x1; WLine (verb ++ SP :: path); WReply x2] /\
+    data_events (skipn (length (w_trace w)) (w_trace w')) =
+      [DNewObj; DConnectTo ip port true; DTcpShutdown; DClose].
+Proof. exact refused_at_transfer_command_passive. Qed.
+Print Assumptions C07_refused_at_transfer_command.
 
 (* non-vacuity: EPSV answered 550, then the session carries on *)
 Definition c07_script : list session :=
